@@ -11,10 +11,20 @@
 // during one maintenance step); every function under contract reads each slot AT MOST ONCE (checked by eye: `take_*` and the
 // getters are each called once per path), and nothing is claimed about the slot contents afterwards. What IS claimed: the
 // effect on the lists (`&mut Deques`) and the counters (`&mut EvictionCounters`) as a function of the values read.
+//
+// `Inner::handle_upsert` (one queued write record applied) is under contract for the QUIESCENT STATE `coupled`: every probation
+// node belongs to the admitted entry the map holds under the node's key, one to one, and entry_count is the length of the
+// list. The map is read and written through `&self`: its view is its content when the step starts, `remove` answers from that
+// view (sound while a key is removed at most once per step: the victims of one admission are distinct nodes with distinct
+// keys). Proved under these assumptions: the five-way case analysis of the property statements (update / fits / oversize /
+// admitted iff more popular than the shortest sufficient LRU prefix, which is exactly what goes / rejected, nobody touched)
+// for the lists and the counters. NOT covered: records queued behind other records of the same key, invalidations in flight
+// (the family KF-SYNC-1 lives exactly there), the map content afterwards.
 use vstd::prelude::*;
 verus! {
 pub mod env {
 use vstd::prelude::*;
+use vstd::std_specs::iter::IteratorSpec;
 use std::sync::Arc;
 use std::ptr::NonNull;
 use super::code::{KeyDate, KeyHashDate};
@@ -78,16 +88,73 @@ impl<T> std::ops::Deref for TrioArc<T> {
     fn deref(&self) -> (r: &T) ensures *r == self@ { unimplemented!() }
 }
 
-#[verifier::external_body]
+/// a list node: `next` / `prev` are private to deque.rs and not modelled; `ident` is a ghost identity (the address), so that two
+/// nodes with equal elements are still different values
 #[verifier::reject_recursive_types(T)]
-pub struct DeqNode<T> { p: std::marker::PhantomData<T> }
+pub struct DeqNode<T> { pub element: T, pub ident: Ghost<int> }
 impl<T> DeqNode<T> {
-    pub uninterp spec fn node_id(&self) -> int;
-    pub uninterp spec fn elem(&self) -> T;
+    pub open spec fn node_id(&self) -> int { self.ident@ }
+    pub open spec fn elem(&self) -> T { self.element }
 //@@ SIG file=src/common/deque.rs owner=DeqNode name=new
     #[verifier::external_body]
     pub fn new(element: T) -> (r: Self) ensures r.elem() == element { unimplemented!() }
 //@@ END
+}
+/// FROZEN HEAP (sound for the immutable fields key / hash of nodes that are still linked): what a node pointer reads
+pub uninterp spec fn heap_deref<T>(p: NonNull<T>) -> T;
+pub broadcast axiom fn axiom_ptr_reads<T>(p: &NonNull<T>, r: &T)
+    ensures #[trigger] ptr_reads(p, r) ==> *r == heap_deref(*p);
+pub open spec fn frozen<K>(s: Seq<N>) -> bool {
+    forall|p: NonNull<DeqNode<KeyHashDate<K>>>, i: int| 0 <= i < s.len() && nid(p) == (#[trigger] s[i]).id ==> {
+        &&& kid_arc(#[trigger] heap_deref(p).element.key) == s[i].key
+        &&& heap_deref(p).element.hash == s[i].hash
+    }
+}
+pub axiom fn axiom_frozen<K>(d: &Deque<KeyHashDate<K>>) ensures frozen::<K>(d@);
+
+pub trait Array { type Item; }
+impl<T, const N: usize> Array for [T; N] { type Item = T; }
+#[verifier::reject_recursive_types(A)]
+pub struct SmallVec<A: Array> { pub v: Vec<A::Item> }
+impl<A: Array> Default for SmallVec<A> {
+    fn default() -> (r: Self) ensures r.v@.len() == 0 { SmallVec { v: Vec::new() } }
+}
+impl<A: Array> SmallVec<A> {
+    pub fn push(&mut self, x: A::Item) ensures final(self).v@ == old(self).v@.push(x) { self.v.push(x) }
+}
+impl<A: Array> IntoIterator for SmallVec<A> {
+    type Item = A::Item;
+    type IntoIter = std::vec::IntoIter<A::Item>;
+    fn into_iter(self) -> (r: Self::IntoIter)
+        ensures r.remaining() == self.v@, r.decrease() is Some, r.obeys_prophetic_iter_laws(),
+    { self.v.into_iter() }
+}
+
+#[verifier::external_body]
+pub struct FrequencySketch { x: u64 }
+impl FrequencySketch {
+    pub uninterp spec fn freq(&self, hash: u64) -> u8;
+    /// contract proved in the `sketch` unit
+//@@ SIG file=src/common/frequency_sketch.rs owner=FrequencySketch name=frequency
+    #[verifier::external_body]
+    pub fn frequency(&self, hash: u64) -> (r: u8) ensures r == self.freq(hash), r <= 15 { unimplemented!() }
+//@@ END
+}
+
+/// dashmap::DashMap<Arc<K>, TrioArc<ValueEntry<K, V>>, S>, read and written through `&self`: `view` is its content when the
+/// maintenance step starts (quiescent: nobody else writes); `remove` answers from that content, which is sound as long as a
+/// key is removed at most once during the step (the victims of one admission are distinct nodes with distinct keys)
+#[verifier::external_body]
+#[verifier::reject_recursive_types(K)]
+#[verifier::reject_recursive_types(V)]
+#[verifier::reject_recursive_types(S)]
+pub struct CacheStore<K, V, S> { k: std::marker::PhantomData<(K, V, S)> }
+impl<K, V, S> CacheStore<K, V, S> {
+    pub uninterp spec fn view(&self) -> Map<KeyId, TrioArc<super::code::ValueEntry<K, V>>>;
+    #[verifier::external_body]
+    pub fn remove(&self, key: &Arc<K>) -> (r: Option<(Arc<K>, TrioArc<super::code::ValueEntry<K, V>>)>)
+        ensures match r { Some(kv) => self@.contains_key(kid_arc(*key)) && kv.1 == self@[kid_arc(*key)], None => !self@.contains_key(kid_arc(*key)) }
+    { unimplemented!() }
 }
 impl<T> std::fmt::Debug for DeqNode<T> {
     #[verifier::external_body]
@@ -231,13 +298,65 @@ impl<K> Deque<KeyDate<K>> {
 }
 } // mod env
 
+pub mod cspec {
+use vstd::prelude::*;
+use super::env::*;
+use super::code::ValueEntry;
+/// the weights of the entries the map holds
+pub open spec fn wmap<K, V>(m: Map<KeyId, TrioArc<ValueEntry<K, V>>>) -> Map<KeyId, u32> { m.map_values(|e: TrioArc<ValueEntry<K, V>>| e@.w()) }
+pub open spec fn wsum(s: Seq<N>, m: Map<KeyId, u32>) -> int
+    decreases s.len()
+{ if s.len() == 0 { 0 } else { wsum(s.drop_last(), m) + m[s.last().key] as int } }
+pub open spec fn fsum(s: Seq<N>, sk: FrequencySketch) -> int
+    decreases s.len()
+{ if s.len() == 0 { 0 } else { fsum(s.drop_last(), sk) + sk.freq(s.last().hash) as int } }
+pub open spec fn least_prefix(p: Seq<N>, m: Map<KeyId, u32>, cw: int, from: int) -> Option<int>
+    decreases p.len() - from
+{
+    if from < 0 || from > p.len() { None }
+    else if wsum(p.take(from), m) >= cw { Some(from) }
+    else if from == p.len() { None }
+    else { least_prefix(p, m, cw, from + 1) }
+}
+/// C13, from the property statement
+pub open spec fn spec_admit(cw: int, cf: int, p: Seq<N>, m: Map<KeyId, u32>, sk: FrequencySketch) -> bool {
+    match least_prefix(p, m, cw, 0) { Some(n) => cf > fsum(p.take(n), sk), None => false }
+}
+pub proof fn lemma_least_prefix(p: Seq<N>, m: Map<KeyId, u32>, cw: int, from: int)
+    requires 0 <= from <= p.len(), forall|i: int| 0 <= i < from ==> wsum(#[trigger] p.take(i), m) < cw
+    ensures match least_prefix(p, m, cw, from) {
+        Some(n) => from <= n <= p.len() && wsum(p.take(n), m) >= cw && forall|i: int| 0 <= i < n ==> wsum(#[trigger] p.take(i), m) < cw,
+        None => forall|i: int| 0 <= i <= p.len() ==> wsum(#[trigger] p.take(i), m) < cw,
+    }
+    decreases p.len() - from
+{
+    if wsum(p.take(from), m) >= cw { } else if from == p.len() { } else { lemma_least_prefix(p, m, cw, from + 1); }
+}
+pub open spec fn sat_sub(a: u64, w: u32) -> u64 { if a >= w { (a - w) as u64 } else { 0 } }
+/// the running total after giving back, one after the other, the weights of the entries of the nodes `s`
+pub open spec fn sat_sub_seq(a: u64, s: Seq<N>, m: Map<KeyId, u32>) -> u64
+    decreases s.len()
+{ if s.len() == 0 { a } else { sat_sub(sat_sub_seq(a, s.drop_last(), m), m[s.last().key]) } }
+pub open spec fn distinct_ids(s: Seq<N>) -> bool { forall|i: int, j: int| 0 <= i < j < s.len() ==> (#[trigger] s[i]).id != (#[trigger] s[j]).id }
+pub proof fn lemma_index_of_id(s: Seq<N>, i: int)
+    requires distinct_ids(s), 0 <= i < s.len()
+    ensures has_id(s, s[i].id), index_of_id(s, s[i].id) == i
+{
+    let j = index_of_id(s, s[i].id);
+    assert(0 <= j < s.len() && s[j].id == s[i].id);
+    if j < i { assert(s[j].id != s[i].id); } else if i < j { assert(s[i].id != s[j].id); }
+}
+} // mod cspec
+
 pub mod code {
 use vstd::prelude::*;
 use std::sync::Arc;
 use std::ptr::NonNull;
 use std::time::Duration;
+use vstd::std_specs::iter::IteratorSpec;
 use super::env::*;
-broadcast use {axiom_node_ref};
+use super::cspec::*;
+broadcast use {axiom_node_ref, axiom_ptr_reads};
 
 //@@ STRUCT file=src/common/concurrent.rs name=KeyHash
 #[verifier::reject_recursive_types(K)]
@@ -737,7 +856,6 @@ pub struct EvictionCounters {
 //@@ END
 
 pub open spec fn sat_add(a: u64, w: u32) -> u64 { if a + w <= u64::MAX { (a + w) as u64 } else { u64::MAX } }
-pub open spec fn sat_sub(a: u64, w: u32) -> u64 { if a >= w { (a - w) as u64 } else { 0 } }
 
 impl EvictionCounters {
 //@@ FN file=src/sync/base_cache.rs owner=EvictionCounters name=saturating_add tags=C10
@@ -765,6 +883,56 @@ impl EvictionCounters {
 //@@ END
 }
 
+//@@ STRUCT file=src/sync/base_cache.rs name=EntrySizeAndFrequency
+#[derive(Default)]
+pub struct EntrySizeAndFrequency {
+    pub policy_weight: u64,
+    pub freq: u32,
+}
+//@@ END
+pub assume_specification [<EntrySizeAndFrequency as Default>::default] () -> (r: EntrySizeAndFrequency)
+    ensures r.policy_weight == 0, r.freq == 0;
+
+impl EntrySizeAndFrequency {
+//@@ FN file=src/sync/base_cache.rs owner=EntrySizeAndFrequency name=new tags=C13
+    fn new(policy_weight: u32) -> /*@+*/(r:/*@-*/ Self/*@+*/)/*@-*/
+        ensures r.policy_weight == policy_weight, r.freq == 0 //@ [C13]
+    {
+        Self {
+            policy_weight: policy_weight as u64,
+            ..Default::default()
+        }
+    }
+//@@ END
+
+//@@ FN file=src/sync/base_cache.rs owner=EntrySizeAndFrequency name=add_frequency tags=C13
+    fn add_frequency(&mut self, freq: &FrequencySketch, hash: u64)
+        requires old(self).freq + 15 <= u32::MAX, //@ [C08]
+        ensures final(self).freq == old(self).freq + freq.freq(hash), final(self).freq <= old(self).freq + 15, final(self).policy_weight == old(self).policy_weight //@ [C13]
+    {
+        self.freq += freq.frequency(hash) as u32;
+    }
+//@@ END
+}
+
+// Access-Order Queue Node
+type AoqNode<K> = NonNull<DeqNode<KeyHashDate<K>>>;
+
+//@@ ENUM file=src/sync/base_cache.rs name=AdmissionResult
+#[verifier::reject_recursive_types(K)]
+pub enum AdmissionResult<K> {
+    Admitted {
+        victim_nodes: SmallVec<[AoqNode<K>; 8]>,
+        skipped_nodes: SmallVec<[AoqNode<K>; 4]>,
+    },
+    Rejected {
+        skipped_nodes: SmallVec<[AoqNode<K>; 4]>,
+    },
+}
+//@@ END
+
+pub open spec fn ptr_ids<K>(v: Seq<AoqNode<K>>) -> Seq<int> { v.map_values(|p: AoqNode<K>| nid(p)) }
+
 /// only the fields the functions under contract read are declared
 #[verifier::reject_recursive_types(K)]
 #[verifier::reject_recursive_types(V)]
@@ -773,7 +941,7 @@ pub struct Inner<K, V, S> {
     pub max_capacity: Option<u64>,
     pub time_to_live: Option<Duration>,
     pub time_to_idle: Option<Duration>,
-    pub kvs: std::marker::PhantomData<(K, V, S)>,
+    pub cache: CacheStore<K, V, S>,
 }
 
 impl<K, V, S> Inner<K, V, S> {
@@ -783,6 +951,57 @@ impl<K, V, S> Inner<K, V, S> {
     {
         self.time_to_live.is_some()
     }
+//@@ END
+
+    /// contract PROVED on the real text in unit `sync`
+//@@ SIG file=src/sync/base_cache.rs owner=Inner name=has_enough_capacity
+    #[verifier::external_body]
+    fn has_enough_capacity(&self, candidate_weight: u32, counters: &EvictionCounters) -> (r: bool)
+        requires counters.weighted_size + candidate_weight <= u64::MAX,
+        ensures r == self.sp_fits(candidate_weight, counters.weighted_size)
+    { unimplemented!() }
+//@@ END
+
+    pub open spec fn sp_fits(&self, w: u32, ws: u64) -> bool { match self.max_capacity { Some(limit) => ws + w <= limit, None => true } }
+    pub open spec fn sp_oversize(&self, w: u32) -> bool { match self.max_capacity { Some(limit) => w > limit, None => false } }
+
+    /// QUIESCENT STATE of the maintenance side (what a sequential history with maintenance applied looks like): every node of
+    /// the probation list belongs to the admitted entry the map holds under the node's key, entries and nodes are one to one,
+    /// and the entry counter is the length of the list
+    pub open spec fn coupled(m: Map<KeyId, TrioArc<ValueEntry<K, V>>>, p: Seq<N>) -> bool {
+        &&& distinct_ids(p)
+        &&& forall|i: int, j: int| 0 <= i < j < p.len() ==> (#[trigger] p[i]).key != (#[trigger] p[j]).key
+        &&& forall|i: int| 0 <= i < p.len() ==> {
+            &&& m.contains_key((#[trigger] p[i]).key)
+            &&& m[p[i].key]@.admitted()
+            &&& m[p[i].key]@.ao() == Some(p[i].id)
+            &&& m[p[i].key]@.ao_tag() == Some(1usize)
+        }
+    }
+
+    /// the admission decision: contract PROVED on the real text in unit `sync_admit` (there over the weights of the entries,
+    /// `wmap`); assumed here
+//@@ SIG file=src/sync/base_cache.rs owner=Inner name=admit
+    #[verifier::external_body]
+    fn admit(
+        candidate: &EntrySizeAndFrequency,
+        cache: &CacheStore<K, V, S>,
+        deqs: &Deques<K>,
+        freq: &FrequencySketch,
+    ) -> (r: AdmissionResult<K>)
+        requires
+            candidate.policy_weight <= u32::MAX, candidate.freq <= 15,
+            forall|i: int| 0 <= i < deqs.probation@.len() ==> cache@.contains_key(#[trigger] deqs.probation@[i].key),
+        ensures
+            (r is Admitted) <==> spec_admit(candidate.policy_weight as int, candidate.freq as int, deqs.probation@, wmap(cache@), *freq),
+            match r {
+                AdmissionResult::Admitted { victim_nodes, skipped_nodes } =>
+                    least_prefix(deqs.probation@, wmap(cache@), candidate.policy_weight as int, 0) == Some(victim_nodes.v@.len() as int)
+                        && ptr_ids(victim_nodes.v@) == deqs.probation@.take(victim_nodes.v@.len() as int).map_values(|x: N| x.id)
+                        && skipped_nodes.v@.len() == 0,
+                AdmissionResult::Rejected { skipped_nodes } => skipped_nodes.v@.len() == 0,
+            },
+    { unimplemented!() }
 //@@ END
 
     /// an admitted entry's counters can be given back: at least one entry is accounted for
@@ -876,6 +1095,160 @@ impl<K, V, S> Inner<K, V, S> {
             Deques::unlink_wo(wo_deq, &entry);
         } else {
             entry.unset_q_nodes();
+        }
+    }
+//@@ END
+
+//@@ FN file=src/sync/base_cache.rs owner=Inner name=handle_upsert tags=C10,C04,C12,C13,C03
+    #[allow(clippy::too_many_arguments)]
+    fn handle_upsert(
+        &self,
+        kh: KeyHash<K>,
+        entry: TrioArc<ValueEntry<K, V>>,
+        old_weight: u32,
+        new_weight: u32,
+        deqs: &mut Deques<K>,
+        freq: &FrequencySketch,
+        counters: &mut EvictionCounters,
+    )
+        requires //@
+            // QUIESCENT STATE (see `coupled`), counters in step with the list
+            Self::coupled(self.cache@, old(deqs).probation@), old(deqs).regions_ok(), //@ [C08,C11]
+            old(counters).entry_count == old(deqs).probation@.len(), old(counters).entry_count < u64::MAX, //@ [C10]
+            old(counters).weighted_size + new_weight <= u64::MAX, //@ [C08]
+            // the entry this record is about: an admitted one owns a probation node; a new one owns none yet
+            entry@.admitted() ==> entry@.ao().is_some() && has_id(old(deqs).probation@, entry@.ao().unwrap()) && Deques::<K>::ao_in_probation(&entry@), //@ [C08,C11]
+        ensures //@
+            final(deqs).others_same(old(deqs)), final(deqs).same_regions(old(deqs)), //@ [C11]
+            // an update of an admitted entry: its share of the total is replaced, it becomes most recently used
+            entry@.admitted() ==> { //@ [C10,C04,C12]
+                &&& final(counters).entry_count == old(counters).entry_count //@
+                &&& final(counters).weighted_size == sat_add(sat_sub(old(counters).weighted_size, old_weight), new_weight) //@
+                &&& final(deqs).probation@ == Deques::<K>::to_back(old(deqs).probation@, entry@.ao()) //@
+                &&& final(deqs).write_order@ == Deques::<K>::to_back(old(deqs).write_order@, entry@.wo()) //@
+            }, //@
+            // C03: a new entry that fits is admitted, nobody is removed
+            !entry@.admitted() && self.sp_fits(new_weight, old(counters).weighted_size) ==> { //@ [C03,C10,C12]
+                &&& final(counters).entry_count == old(counters).entry_count + 1 //@
+                &&& final(counters).weighted_size == sat_add(old(counters).weighted_size, new_weight) //@
+                &&& pushed(old(deqs).probation@, final(deqs).probation@, kid_arc(kh.key), kh.hash) //@
+            }, //@
+            // C04 / C13: heavier than the whole cache: rejected, counters and lists untouched
+            !entry@.admitted() && !self.sp_fits(new_weight, old(counters).weighted_size) && self.sp_oversize(new_weight) ==> //@ [C04,C13,C10]
+                *final(counters) == *old(counters) && final(deqs).probation@ == old(deqs).probation@ && final(deqs).write_order@ == old(deqs).write_order@, //@
+            // C12 / C13: no room: admitted iff strictly more popular than the shortest sufficient LRU prefix, which is exactly what goes
+            !entry@.admitted() && !self.sp_fits(new_weight, old(counters).weighted_size) && !self.sp_oversize(new_weight) //@ [C12,C13,C10,C04]
+                && spec_admit(new_weight as int, freq.freq(kh.hash) as int, old(deqs).probation@, wmap(self.cache@), *freq) ==> ({ //@
+                let n = least_prefix(old(deqs).probation@, wmap(self.cache@), new_weight as int, 0).unwrap(); //@
+                &&& final(counters).entry_count == old(counters).entry_count - n + 1 //@
+                &&& final(counters).weighted_size == sat_add(sat_sub_seq(old(counters).weighted_size, old(deqs).probation@.take(n), wmap(self.cache@)), new_weight) //@
+                &&& pushed(old(deqs).probation@.skip(n), final(deqs).probation@, kid_arc(kh.key), kh.hash) //@
+            }), //@
+            // C13: otherwise rejected and no resident is touched
+            !entry@.admitted() && !self.sp_fits(new_weight, old(counters).weighted_size) && !self.sp_oversize(new_weight) //@ [C13,C10]
+                && !spec_admit(new_weight as int, freq.freq(kh.hash) as int, old(deqs).probation@, wmap(self.cache@), *freq) ==> //@
+                *final(counters) == *old(counters) && final(deqs).probation@ == old(deqs).probation@ && final(deqs).write_order@ == old(deqs).write_order@, //@
+    {
+        let ghost p0 = deqs.probation@; let ghost m = self.cache@; let ghost ec0 = counters.entry_count; let ghost ws0 = counters.weighted_size; //@
+        entry.set_dirty(false);
+
+        if entry.is_admitted() {
+            // The entry has been already admitted, so treat this as an update.
+            counters.saturating_sub(0, old_weight);
+            counters.saturating_add(0, new_weight);
+            deqs.move_to_back_ao(&entry);
+            deqs.move_to_back_wo(&entry);
+            return;
+        }
+
+        if self.has_enough_capacity(new_weight, counters) {
+            // There are enough room in the cache (or the cache is unbounded).
+            // Add the candidate to the deques.
+            self.handle_admit(kh, &entry, new_weight, deqs, counters);
+            return;
+        }
+
+        if let Some(max) = self.max_capacity {
+            if new_weight as u64 > max {
+                // The candidate is too big to fit in the cache. Reject it.
+                self.cache.remove(&Arc::clone(&kh.key));
+                return;
+            }
+        }
+
+        let skipped_nodes;
+        let mut candidate = EntrySizeAndFrequency::new(new_weight);
+        candidate.add_frequency(freq, kh.hash);
+
+        // Try to admit the candidate.
+        proof { axiom_frozen(&deqs.probation); } //@
+        match Self::admit(&candidate, &self.cache, deqs, freq) {
+            AdmissionResult::Admitted {
+                victim_nodes,
+                skipped_nodes: mut skipped,
+            } => {
+                let ghost vn = victim_nodes.v@; //@
+                let ghost n = vn.len() as int; //@
+                proof { lemma_least_prefix(p0, wmap(m), new_weight as int, 0); assert(p0.skip(0) =~= p0); assert(p0.take(0) =~= Seq::<N>::empty()); } //@
+                // Try to remove the victims from the cache (hash map).
+                for victim in /*@+*/it:/*@-*/ victim_nodes
+                    invariant //@
+                        it.snapshot@.remaining() == vn, n == vn.len(), n <= p0.len(), it.index@ <= n, //@
+                        ptr_ids(vn) == p0.take(n).map_values(|x: N| x.id), //@
+                        frozen::<K>(p0), Self::coupled(m, p0), self.cache@ == m, //@
+                        skipped.v@.len() == 0, //@
+                        deqs.probation@ == p0.skip(it.index@), //@ [C12]
+                        deqs.regions_ok(), deqs.others_same(old(deqs)), deqs.same_regions(old(deqs)), //@
+                        ec0 == p0.len(), counters.entry_count == ec0 - it.index@, //@ [C10]
+                        counters.weighted_size == sat_sub_seq(ws0, p0.take(it.index@), wmap(m)), //@ [C10,C04]
+                {
+                    let ghost j = it.index@; //@
+                    proof { //@
+                        assert(nid(victim) == ptr_ids(vn)[j]); //@
+                        assert(p0.take(n).map_values(|x: N| x.id)[j] == p0[j].id); //@
+                        lemma_index_of_id(p0, j); //@
+                    } //@
+                    if let Some((_vic_key, vic_entry)) =
+                        self.cache.remove(unsafe { victim.as_ref().element.key() })
+                    {
+                        proof { //@
+                            assert(vic_entry == m[p0[j].key]); //@
+                            let s = p0.skip(j); //@
+                            assert(s[0] == p0[j]); //@
+                            assert(distinct_ids(s)) by { assert forall|a: int, b: int| 0 <= a < b < s.len() implies (#[trigger] s[a]).id != (#[trigger] s[b]).id by { assert(p0[a + j].id != p0[b + j].id); } } //@
+                            lemma_index_of_id(s, 0); //@
+                            assert(s.remove(0) =~= p0.skip(j + 1)); //@
+                            assert(p0.take(j + 1).drop_last() =~= p0.take(j)); //@
+                            assert(wmap(m)[p0[j].key] == vic_entry@.w()); //@
+                        } //@
+                        // And then remove the victim from the deques.
+                        Self::handle_remove(deqs, vic_entry, counters);
+                    } else {
+                        // Could not remove the victim from the cache. Skip this
+                        // victim node as its ValueEntry might have been
+                        // invalidated. Add it to the skipped nodes.
+                        skipped.push(victim);
+                    }
+                }
+                skipped_nodes = skipped;
+
+                // Add the candidate to the deques.
+                self.handle_admit(kh, &entry, new_weight, deqs, counters);
+            }
+            AdmissionResult::Rejected { skipped_nodes: s } => {
+                skipped_nodes = s;
+                // Remove the candidate from the cache (hash map).
+                self.cache.remove(&Arc::clone(&kh.key));
+            }
+        };
+
+        // Move the skipped nodes to the back of the deque. We do not unlink (drop)
+        // them because ValueEntries in the write op queue should be pointing them.
+        let ghost sk = skipped_nodes.v@; let ghost d1 = *deqs; let ghost c1 = *counters; //@
+        for node in /*@+*/it2:/*@-*/ skipped_nodes
+            invariant it2.snapshot@.remaining() == sk, sk.len() == 0, *deqs == d1, *counters == c1, //@
+        {
+            unsafe { deqs.probation.move_to_back(node) };
         }
     }
 //@@ END
